@@ -36,6 +36,7 @@ import DdsModel.Theorems.C05
 import DdsModel.Theorems.C20
 import DdsModel.Drv.C01
 import DdsModel.Proofs.TrapBc
+import DdsModel.Proofs.TrapBc7
 namespace Dds.C01
 open Dds Dds.Stream Dds.Reader
 
@@ -647,6 +648,39 @@ example :
       some [[0, 65535, 32768], [65535, 65535, 32768], [13107, 37449, 32768], [26214, 65535, 32768]] ∧
     TrapBc.blockT .bc1 .u16 b1 = some (Bc.decodeBlock .bc1 .u16 b1) ∧
     TrapBc.n5n8T 32 = none ∧ TrapBc.n8n16T 300 = none := by
+  decide +kernel
+
+/-- **BC7 body** (`src/decode/bc7.rs` in full, `BitStream` / `Indexes` of `bcn_util.rs`, `get_subset_index` of
+`bcn_data.rs`).  For EVERY block (any `Nat`, in particular every 128-bit value; modes 0–7 and the reserved mode):
+every shift amount is below the width (`state >>= n` on `u128`, `1_u16 << count`, `(1 << bits) - 1`,
+`(1 << keep_count) - 1`, `>>= keep_count`, `<<= keep_count` on `u64`, `number <<= 8 - number_bits` on `u8`),
+the `u8` products `16 * bits - k`, `index * bits`, `pixel_index * self.bits`, `mode + 1` do not overflow, every
+`debug_assert!` holds (`0 < count <= 8`, `count <= 64`, `bits <= 4`, `0 < p2_fixup < p3_fixup`,
+`pixel_index < 16`, `(4..8).contains(&number_bits)`, the `MODE` tests), every table index is in range
+(`PARTITION_SET_2/3[partition_set_id]` with 64 entries, `WEIGHTS_2/3/4[index]`, `endpoints[2 * subset_index + 1]`,
+`r[i]`, `output[pixel_index]`), no `unreachable!()` is reached, and the `u16` interpolation
+`(256 - weight) * e0 + weight * e1 + 128` stays below 65 536 — and the 16 pixels are those of `Bc7.decodeBlock`;
+the U16 wrapper (`x as u16 * 257`) does not overflow either. -/
+theorem bc7_body_trapfree (b : Nat) :
+    TrapBc7.decodeBlockT b = some (Bc7.decodeBlock b) ∧
+    ∀ (prec : Nat) (f32of : Nat → Nat), TrapBc7.decodeT prec f32of b =
+      some (if prec = 0 then Bc7.decodeBlock b
+        else if prec = 1 then (Bc7.decodeBlock b).map (List.map (· * 257))
+        else (Bc7.decodeBlock b).map (List.map f32of)) :=
+  ⟨TrapBc7.decodeBlockT_eq b, fun prec f => TrapBc7.decodeT_eq prec f b⟩
+
+/-- non-vacuity: one block per mode 0..7 and a reserved-mode block through the mirror (first pixel shown), and
+the mirror does trap outside the proved ranges: a weight of 300 underflows `256 - weight`, an index width of 5
+shifts a `u64` by 75, `promote(_, 8)` fails its `debug_assert!` -/
+example :
+    ([0xfedcba98765432100123456789abcde1, 0xfedcba98765432100123456789abcde2, 0xfedcba98765432100123456789abcde4,
+      0xfedcba98765432100123456789abcde8, 0xfedcba98765432100123456789abcd10, 0xfedcba98765432100123456789abcd20,
+      0xfedcba98765432100123456789abcd40, 0xfedcba98765432100123456789abcd80,
+      0xfedcba98765432100123456789abcd00].map fun b => (TrapBc7.decodeBlockT b).map (·.take 1)) =
+    [some [[211, 162, 112, 255]], some [[71, 147, 3, 255]], some [[73, 109, 121, 255]], some [[231, 43, 9, 255]],
+     some [[107, 82, 198, 120]], some [[155, 76, 173, 72]], some [[52, 154, 88, 34]], some [[125, 207, 36, 101]],
+     some [[0, 0, 0, 0]]] ∧
+    TrapBc7.lerpT 255 255 300 = none ∧ TrapBc7.getIndexT ⟨0, 5, 31⟩ 15 = none ∧ TrapBc7.promoteT 3 8 = none := by
   decide +kernel
 
 end Dds.C01
